@@ -4,8 +4,9 @@ import ExprModel.Proofs.RefineSemA3
 import ExprModel.Proofs.RefineSemA4
 /-
 C01: assembling the case lemmas by mutual structural recursion over `Node` / `List Node`.
-`Good loops n`: pair nodes occur exactly as the elements of map literals; with `loops = false` the only
-builtin allowed is `len` (stage A).  The loop builtins enter through the hypothesis `LoopCase`.
+`Good L n`: pair nodes occur exactly as the elements of map literals; a loop builtin is allowed when its
+collection argument satisfies `L` (`L := fun _ => False`: stage A, only `len`).  The loop builtins enter
+through the hypothesis `LoopCase`.
 -/
 set_option linter.unusedVariables false
 set_option linter.unusedSimpArgs false
@@ -13,8 +14,13 @@ namespace ExprModel.Refine
 open ExprModel
 open ExprModel.Spec
 
+/-- the collection argument of a loop builtin satisfies `L` -/
+def LoopArgs (L : Node → Prop) : List Node → Prop
+  | [a, _] => L a
+  | _ => False
+
 mutual
-def Good (loops : Bool) : Node → Prop
+def Good (loops : Node → Prop) : Node → Prop
   | .nil _ | .ident .. | .int .. | .float .. | .bool .. | .str .. | .const .. | .pointer _ => True
   | .unary _ _ x => Good loops x
   | .binary _ _ l r => Good loops l ∧ Good loops r
@@ -24,28 +30,28 @@ def Good (loops : Bool) : Node → Prop
   | .slice _ x f t => Good loops x ∧ GoodO loops f ∧ GoodO loops t
   | .method _ x _ args _ => Good loops x ∧ GoodL loops args
   | .func _ _ args _ => GoodL loops args
-  | .builtin _ name args => (name = "len" ∨ loops = true) ∧ GoodL loops args
+  | .builtin _ name args => (name = "len" ∨ LoopArgs loops args) ∧ GoodL loops args
   | .closure _ x => Good loops x
   | .cond _ c a b => Good loops c ∧ Good loops a ∧ Good loops b
   | .array _ xs => GoodL loops xs
   | .map _ ps => GoodP loops ps
   | .pair .. => False
-def GoodO (loops : Bool) : Option Node → Prop
+def GoodO (loops : Node → Prop) : Option Node → Prop
   | none => True
   | some n => Good loops n
-def GoodL (loops : Bool) : List Node → Prop
+def GoodL (loops : Node → Prop) : List Node → Prop
   | [] => True
   | n :: ns => Good loops n ∧ GoodL loops ns
-def GoodP (loops : Bool) : List Node → Prop
+def GoodP (loops : Node → Prop) : List Node → Prop
   | [] => True
   | .pair _ k v :: ps => Good loops k ∧ Good loops v ∧ GoodP loops ps
   | _ :: _ => False
 end
 
-theorem good_not_pair {loops : Bool} {n : Node} (h : Good loops n) : isPair n = false := by
+theorem good_not_pair {loops : Node → Prop} {n : Node} (h : Good loops n) : isPair n = false := by
   cases n <;> first | rfl | exact h.elim
 
-theorem goodL_noPairs {loops : Bool} : ∀ {ns : List Node}, GoodL loops ns → NoPairs ns
+theorem goodL_noPairs {loops : Node → Prop} : ∀ {ns : List Node}, GoodL loops ns → NoPairs ns
   | [], _ => fun _ h => by cases h
   | n :: ns, h => by
     intro x hx
@@ -53,7 +59,7 @@ theorem goodL_noPairs {loops : Bool} : ∀ {ns : List Node}, GoodL loops ns → 
     · exact good_not_pair h.1
     · exact goodL_noPairs h.2 x hx
 
-theorem goodP_allPairs {loops : Bool} : ∀ {ns : List Node}, GoodP loops ns → AllPairs ns
+theorem goodP_allPairs {loops : Node → Prop} : ∀ {ns : List Node}, GoodP loops ns → AllPairs ns
   | [], _ => fun _ h => by cases h
   | n :: ns, h => by
     cases n <;> first | exact (h : False).elim | skip
@@ -62,17 +68,17 @@ theorem goodP_allPairs {loops : Bool} : ∀ {ns : List Node}, GoodP loops ns →
     · rfl
     · exact goodP_allPairs (h : _ ∧ _ ∧ _).2.2 x hx
 
-/-- what the loop builtins have to provide (stage B); vacuous for `loops = false` -/
-def LoopCase (c : Cfg) (P : Prog) (loops : Bool) : Prop :=
-  loops = true → ∀ (m : Meta) (name : String) (a b : Node) (ca cb : List LInstr) (ci cs car c0 : Nat) (code : List LInstr)
-    (ctx : Ctx), (∀ ctx', Sim c P ctx' a ca) → (∀ ctx', Sim c P ctx' b cb) → LoopK P.consts ci cs car c0 →
+/-- what the loop builtins have to provide (stage B); vacuous for `L := fun _ => False` -/
+def LoopCase (c : Cfg) (P : Prog) (loops : Node → Prop) : Prop :=
+  ∀ (m : Meta) (name : String) (a b : Node) (ca cb : List LInstr) (ci cs car c0 : Nat) (code : List LInstr)
+    (ctx : Ctx), loops a → (∀ ctx', Sim c P ctx' a ca) → (∀ ctx', Sim c P ctx' b cb) → LoopK P.consts ci cs car c0 →
     BuiltinCode P.consts m.loc name ca cb ci cs car c0 code → Sim c P ctx (.builtin m name [a, b]) code
 
 /-- the environment is a map when the compiler was told so (`OpFetchMap`) -/
 def EnvOK (c : Cfg) (cfg : CompCfg) : Prop := cfg.mapEnv = true → ∃ kvs, c.env = .map kvs
 
 mutual
-theorem sim {c : Cfg} {P : Prog} {cfg : CompCfg} {loops : Bool} (henv : EnvOK c cfg) (hloop : LoopCase c P loops) :
+theorem sim {c : Cfg} {P : Prog} {cfg : CompCfg} {loops : Node → Prop} (henv : EnvOK c cfg) (hloop : LoopCase c P loops) :
     ∀ (n : Node) (code : List LInstr) (ctx : Ctx), Compiles P.consts cfg n code → Good loops n → Sim c P ctx n code
   | .nil m, code, ctx, h, _ => by
     rw [Compiles_nil] at h; subst h; exact sim_nil m
@@ -192,11 +198,11 @@ theorem sim {c : Cfg} {P : Prog} {cfg : CompCfg} {loops : Bool} (henv : EnvOK c 
     exact sim_len (sim henv hloop a ca ctx ha hg.2.1)
   | .builtin m name [a, b], code, ctx, h, hg => by
     rw [Compiles_builtin2] at h; obtain ⟨ca, cb, ci, cs, car, c0, ha, hb, hK, hcode⟩ := h
-    have hl : loops = true := by
+    have hl : loops a := by
       rcases hg.1 with rfl | hl
       · rcases hcode with ⟨h, _⟩ | ⟨h, _⟩ | ⟨h, _⟩ | ⟨h, _⟩ | ⟨h, _⟩ | ⟨h, _⟩ | ⟨h, _⟩ <;> exact absurd h (by decide)
       · exact hl
-    exact hloop hl m name a b ca cb ci cs car c0 code ctx
+    exact hloop m name a b ca cb ci cs car c0 code ctx hl
       (fun ctx' => sim henv hloop a ca ctx' ha hg.2.1) (fun ctx' => sim henv hloop b cb ctx' hb hg.2.2.1) hK hcode
   | .builtin m name (a :: b :: d :: rest), code, ctx, h, hg => by
     rw [Compiles_builtin3] at h; exact h.elim
@@ -216,7 +222,7 @@ theorem sim {c : Cfg} {P : Prog} {cfg : CompCfg} {loops : Bool} (henv : EnvOK c 
     rw [Compiles_map] at h; obtain ⟨cx, k, hx, hk, rfl⟩ := h
     exact sim_map (simP henv hloop ps cx ctx hx hg) (goodP_allPairs hg) hk
   | .pair m k v, code, ctx, h, hg => hg.elim
-theorem simL {c : Cfg} {P : Prog} {cfg : CompCfg} {loops : Bool} (henv : EnvOK c cfg) (hloop : LoopCase c P loops) :
+theorem simL {c : Cfg} {P : Prog} {cfg : CompCfg} {loops : Node → Prop} (henv : EnvOK c cfg) (hloop : LoopCase c P loops) :
     ∀ (ns : List Node) (code : List LInstr) (ctx : Ctx), CompilesL P.consts cfg ns code → GoodL loops ns →
       SimL c P ctx ns code
   | [], code, ctx, h, _ => by
@@ -224,7 +230,7 @@ theorem simL {c : Cfg} {P : Prog} {cfg : CompCfg} {loops : Bool} (henv : EnvOK c
   | n :: ns, code, ctx, h, hg => by
     rw [CompilesL_cons] at h; obtain ⟨c1, c2, h1, h2, rfl⟩ := h
     exact simL_cons (good_not_pair hg.1) (sim henv hloop n c1 ctx h1 hg.1) (simL henv hloop ns c2 ctx h2 hg.2)
-theorem simP {c : Cfg} {P : Prog} {cfg : CompCfg} {loops : Bool} (henv : EnvOK c cfg) (hloop : LoopCase c P loops) :
+theorem simP {c : Cfg} {P : Prog} {cfg : CompCfg} {loops : Node → Prop} (henv : EnvOK c cfg) (hloop : LoopCase c P loops) :
     ∀ (ns : List Node) (code : List LInstr) (ctx : Ctx), CompilesL P.consts cfg ns code → GoodP loops ns →
       SimL c P ctx ns code
   | [], code, ctx, h, _ => by
